@@ -161,6 +161,8 @@ def corpus_runs(quick: bool):
     for flt in ("ekf", "ukf"):
         specs.append(dict(NICE, filter=flt, n=2, m=1, p=2, dtype="float64", nonlinear=True, T=4, qr_mode="call",
                           t_mode="none", vary_qr=True, arg_mode="inplace", k_seq=[1, 2, "none", 0.5]))
+    specs.append(dict(NICE, filter="ukf", n=2, m=2, p=2, dtype="float64", nonlinear=True, T=4, qr_mode="call", t_mode="none",
+                      vary_qr=False, k_seq=[0, 1, 0, "none"]))
     specs.append(dict(NICE, filter="ukf", n=2, m=1, p=2, dtype="float64", nonlinear=True, T=4, qr_mode="call", t_mode="none",
                       vary_qr=False, extreme="k-edge", k_seq=[1e6, "-n+0.0001", 1e-9, -1e-9]))
     for flt in ("ekf", "ukf"):
@@ -183,7 +185,8 @@ def corpus_pf():
     for i, (n, N, nl, am) in enumerate([(2, 17, False, "inplace"), (3, 8, True, "views"), (1, 1, False, "fresh"),
                                         (2, 40, False, "views")]):
         c = gen_pf(random.Random(130200 + i), False, True, {"dtype": "float64", "nonlinear": nl, "N": N})
-        c.update(seed=130200 + i, n=n, m=1, p=2, T=3, qr_mode="both", corpus=i, arg_mode=am)
+        c.update(seed=130200 + i, n=n, m=1, p=2, T=3, qr_mode="both" if i % 2 else "call", corpus=i, arg_mode=am,
+                 qr_scales=[1.0, 2.0, 0.5])
         out.append(c)
     return out
 
@@ -701,6 +704,9 @@ def materialise_pf(c):
     for st in d["steps"]:
         st["pass_qr"] = c["qr_mode"] == "call" or (c["qr_mode"] == "both" and rng.random() < 0.5)
         st["qr_scale"] = rng.choice([1.0, 2.0, 0.5])       # the per-call Q, R differ from call to call
+    for j, st in enumerate(d["steps"]):
+        if c.get("qr_scales"):
+            st["qr_scale"] = c["qr_scales"][j % len(c["qr_scales"])]
     return d
 
 
@@ -737,6 +743,10 @@ def pf_measurement(fam, st, n, p, xl, Pl, Rl):
     S = C * (n * uf.M(Pl)) * C.T + uf.M(Rl)
     g0 = fam.g(xv, uv)
     return [float(g0[i]) + st["ydev"][i] * math.sqrt(abs(float(S[i, i]))) for i in range(p)]
+
+
+def fpre_early(d, t_eff, rec, st):
+    return float(uf.NpFam(d["prm"], t_eff).fpre(rec["xp"].double().numpy(), np.array(st["u"])).max())
 
 
 def run_pf_corr(ctx: Ctx, c, lines, metas):
@@ -820,6 +830,29 @@ def run_pf_corr(ctx: Ctx, c, lines, metas):
         epre = gpre.amax(dim=-1) + float(ly.abs().max())
         fpre = float(uf.NpFam(d["prm"], t_eff).fpre(rec["xp"].double().numpy(), np.array(st["u"])).max())
         dlogit = (le @ lRi).abs().sum(dim=-1) * epre
+        # ---- the documented particle model, evaluated directly on what the real code handed between its own stages
+        # (float64 numpy/torch, independent of the Lean model): weights = Gaussian likelihood of y, normalised;
+        # resampling = first cumulative weight >= draw; estimate = mean, covariance = Q + mean of outer products
+        wref = torch.softmax(-maha / 2, dim=-1)
+        dl0 = float(torch.linalg.cond(lR)) * (1.0 + maha / 2) + dlogit
+        tolw0 = wref * (CTOL * eps * (dl0 + float(dl0[int(wref.argmax())]))) + 16 * eps * float(wref.max())
+        if bool(((rec["q"].double() - wref).abs() > tolw0).any()):
+            i0 = int(((rec["q"].double() - wref).abs() / tolw0).argmax())
+            ctx.fail(stepcase, f"pf-weights: importance weight {i0} is {float(rec['q'][i0]):.6e}, the Gaussian likelihood of y "
+                               f"gives {float(wref[i0]):.6e} (N={N}, args={mode})")
+        elif margin > float(tolw0.sum()) + 4 * eps:
+            idx0 = torch.searchsorted(torch.cumsum(wref, dim=-1), r.double()).clamp(max=N - 1)
+            if not torch.equal(xs[idx0], xr):
+                ctx.fail(stepcase, f"pf-resample: the resampled set is not xs[searchsorted(cumsum(q), r)] (N={N})")
+        sx0 = max(float(xr.double().abs().max()), fpre_early(d, t_eff, rec, st)) + 1e-300
+        mx0 = xr.double().mean(dim=0)
+        ex0 = xr.double() - mx0
+        P0ref = torch.tensor(Ql, dtype=torch.float64) + (ex0.unsqueeze(-1) * ex0.unsqueeze(-2)).mean(dim=0)
+        if float((x2.double() - mx0).abs().max()) > CTOL * eps * sx0 or \
+                float((P2.double() - P0ref).abs().max()) > CTOL * eps * (scaleP + sx0 ** 2):
+            ctx.fail(stepcase, f"pf-moments: returned (x, P) is not (mean, Q + covariance) of the resampled particles: "
+                               f"|dx|={float((x2.double() - mx0).abs().max()):.3e} |dP|={float((P2.double() - P0ref).abs().max()):.3e} "
+                               f"(N={N})")
         metas.append({"case": stepcase, "x": x2.detach().clone(), "P": P2.detach().clone(), "q": rec["q"], "xs": xs, "xr": xr,
                       "margin": margin, "eps": eps, "scaleP": scaleP + fpre ** 2, "maha": maha, "dlogit": dlogit, "fpre": fpre,
                       "kappaR": float(torch.linalg.cond(lR))})
@@ -1036,7 +1069,8 @@ def run(ctx: Ctx):
               {"filter": "ukf", "nonlinear": False, "T": 20 if ctx.quick else 50}]
     # on affine systems the UKF result does not depend on k (theorem), so the handling of k is only visible on
     # non-linear members: one short non-linear run per k choice
-    forced += [{"filter": "ukf", "nonlinear": True, "k": kc, "T": 2, "dtype": "float64"} for kc in K_CHOICES]
+    forced += [{"filter": "ukf", "nonlinear": True, "k": kc, "T": 2, "dtype": "float64", "vary_k": False, "extreme": "-"}
+               for kc in K_CHOICES]
     for c in corpus_runs(ctx.quick):
         ctx.count("corpus.run")
         run_one(ctx, c, lines, metas)
